@@ -55,11 +55,12 @@ F3_TEXT = "'NoneType' object has no attribute 'extend'"
 
 
 def as_recorded_f3(status, error, agree):
-    """F3 (time merge of 5-D inputs with a singleton time axis) is recorded as: AttributeError from `None.extend`, or a result
-    with values at the wrong time point — the latter exactly as the model (which follows the code there) computes it.  Any other
-    failure in that region is not F3 and is reported under a tag of its own."""
-    if status != 'ok':
-        return F3_TEXT in (error or '')
+    """F3 (time merge of 5-D inputs with a singleton time axis) is recorded as: AttributeError from `None.extend`, or — exactly as
+    the model (which follows the code there) computes it — a result with values at the wrong time point or the ValueError of
+    `_simplify` on a list whose length the accumulating shape does not divide.  Any other failure in that region is not F3 and
+    is reported under a tag of its own."""
+    if status != 'ok' and F3_TEXT in (error or ''):
+        return True
     return agree is True
 
 
@@ -253,15 +254,16 @@ def roundtrip_round(rep, pid, cases, tier):
                 fails = ['split/merge raised %r' % e]
                 back = None
                 err_ = repr(e)
+                st_ = SM.exc_kind(e)
             if fails and region == 'roundtrip:subset:time:5D':
                 # attribute to F3 only what behaves as recorded (see `as_recorded_f3`)
                 ag_ = None
                 try:
                     ms = [M.ext_to_model(p_) for p_ in pieces]
-                    if back is not None and all(x is not None for x in ms):
+                    if all(x is not None for x in ms):
                         a_ = core.Driver().ask([{'op': 'from_sequence', 'exts': ms, 'dim': dim, 'sd': None,
                                                  'use': SM.normals_use(pieces)}])[0]
-                        ag_ = SM.compare_model(a_, 'ok', back)[0]
+                        ag_ = SM.compare_model(a_, 'ok' if back is not None else st_, back)[0]
                 except Exception:
                     ag_ = None
                 if not as_recorded_f3('ok' if back is not None else 'raise', None if back is not None else err_, ag_):
